@@ -5,11 +5,12 @@ For each one: scratch worktree of /repo HEAD under /tmp, apply the patch, confir
 demonstration fails, run `SUGAR_REPO=<worktree> ./check <property>` (and any extra properties named on the command line),
 record the outcome in seeded/<name>/result.json, remove the worktree.
 
-usage: tools/run_seeded.py [name ...] [--tier quick|thorough] [--no-tests]
+usage: tools/run_seeded.py [name ...] [--tier quick|thorough] [--no-tests] [--as Cxx] [--benign]
+(--benign: run on /verif/benign/<name>/ instead - rewrites that keep the property; expected outcome caught=False, check exit 0)
 """
 import os, sys, json, subprocess, shutil, re, time
 ROOT = os.path.dirname(os.path.dirname(os.path.abspath(__file__)))
-SEEDED = os.path.join(ROOT, 'seeded')
+SEEDED = os.path.join(ROOT, 'benign' if '--benign' in sys.argv else 'seeded')   # --benign: behaviour-preserving rewrites, the checks must stay green
 
 
 def sh(cmd, **kw):
@@ -51,8 +52,9 @@ def main():
                     rc, out = sh('cd %s && PYTHONPATH=%s /venv/bin/python -m pytest -q -p no:cacheprovider --timeout=900 '
                                  '--continue-on-collection-errors sugar/tests 2>&1 | tail -1' % (wt, wt))
                     res['tests'] = out.strip()
-                rc, out = sh('cd %s && PYTHONPATH=%s /venv/bin/python -W ignore %s' % (wt, wt, os.path.join(d, 'demo.py')))
-                res['demo_fails_with_patch'] = rc != 0
+                if os.path.exists(os.path.join(d, 'demo.py')):
+                    rc, out = sh('cd %s && PYTHONPATH=%s /venv/bin/python -W ignore %s' % (wt, wt, os.path.join(d, 'demo.py')))
+                    res['demo_fails_with_patch'] = rc != 0
                 t0 = time.time()
                 rc, out = sh('cd %s && SUGAR_REPO=%s ./check %s --tier %s' % (ROOT, wt, prop, tier))
                 res['check_exit'] = rc
